@@ -91,7 +91,7 @@ package service
 //@   mode wrap
 //@   props C13 C17 C16 C05 C12 C06 C08
 //@   requires[lock-held] its.lock != nil && sel(G.held, its.lock)
-//@   requires handlerWF(its) && its.datatypeDoc == nil && (its.gotPushPullPack.CheckPoint != nil ==> allocated(its.gotPushPullPack.CheckPoint))
+//@   requires handlerWF(its) && its.datatypeDoc == nil && (its.gotPushPullPack.CheckPoint != nil ==> allocated(its.gotPushPullPack.CheckPoint)) && its.resPushPullPack != nil
 //@   ensures[error]          (result1 != nil) == (result0 == caseError)
 //@   ensures[nothing]        (result0 == caseMatchNothing) == (result1 == nil && its.datatypeDoc == nil)
 //@   ensures[doc-wf]         its.datatypeDoc != nil ==> mongodb.docWF(its.datatypeDoc)
@@ -104,9 +104,11 @@ package service
 //@   ensures[not-subscribed] result0 == caseAllMatchedNotSubscribed ==> its.datatypeDoc.Visible && its.datatypeDoc.GetClientInDatatypeDoc(its.CUID, its.isReadOnly) == nil
 //@   ensures[by-id]          result0 == caseUsedDUID ==> its.datatypeDoc != nil && its.datatypeDoc.DUID == its.DUID
 //@   ensures[same-collection] its.datatypeDoc != nil ==> its.datatypeDoc.CollectionNum == its.collectionDoc.Num
+//@   ensures[served-on-the-datatype-that-holds-the-key] (result0 == caseAllMatchedSubscribed || result0 == caseAllMatchedNotSubscribed || result0 == caseAllMatchedNotVisible) ==> its.DUID == its.datatypeDoc.DUID && its.resPushPullPack.DUID == its.datatypeDoc.DUID
+//@   ensures[otherwise-the-request-keeps-its-identifier] !(result0 == caseAllMatchedSubscribed || result0 == caseAllMatchedNotSubscribed || result0 == caseAllMatchedNotVisible) ==> its.DUID == old(its.DUID)
 //@   ensures[existing-key-is-seen] result1 == nil && (optCreate(its) || optSubscribe(its)) && mongodb.keyExists(its.collectionDoc.Num, its.gotPushPullPack.Key) ==> result0 == caseMatchKeyNotType || result0 == caseAllMatchedSubscribed || result0 == caseAllMatchedNotSubscribed || result0 == caseAllMatchedNotVisible
 //@   ensures[range]          result0 == caseError || result0 == caseMatchNothing || result0 == caseUsedDUID || result0 == caseMatchKeyNotType || result0 == caseAllMatchedSubscribed || result0 == caseAllMatchedNotSubscribed || result0 == caseAllMatchedNotVisible
-//@   modifies PushPullHandler.datatypeDoc
+//@   modifies PushPullHandler.datatypeDoc, PushPullHandler.DUID @ its, model.PushPullPack.DUID @ its.resPushPullPack
 
 //@ func (*PushPullHandler).initClientInfoWithDatatypeDoc
 //@   mode wrap
@@ -211,6 +213,8 @@ package service
 //@   requires[log-inv] its.datatypeDoc != nil ? logInv(its) : G.stored == 0
 //@   requires[ops] reqOpsWF(its.gotPushPullPack.Operations)
 //@   requires[case-facts] (code == caseMatchNothing) == (its.datatypeDoc == nil) && (its.datatypeDoc != nil ==> mongodb.docWF(its.datatypeDoc))
+//@   requires[found-by-key-means-served-on-it] (code == caseAllMatchedSubscribed || code == caseAllMatchedNotSubscribed || code == caseAllMatchedNotVisible) ==> its.DUID == its.datatypeDoc.DUID
+//@   requires[found-by-duid] code == caseUsedDUID ==> its.DUID == its.datatypeDoc.DUID
 //@   requires[subscribed-fact] (code == caseAllMatchedSubscribed ==> its.datatypeDoc.GetClientInDatatypeDoc(its.CUID, its.isReadOnly) != nil) && (code == caseAllMatchedNotSubscribed ==> its.datatypeDoc.GetClientInDatatypeDoc(its.CUID, its.isReadOnly) == nil)
 //@   ensures[type-mismatch-refused]      code == caseMatchKeyNotType ==> result != nil
 //@   ensures[create-existing-refused]    old(optCreate(its)) && !old(optSubscribe(its)) && (code == caseAllMatchedNotSubscribed || code == caseAllMatchedNotVisible) ==> result != nil
@@ -221,7 +225,13 @@ package service
 //@   ensures[creates-iff-nothing-matched] old(optCreate(its)) && code == caseMatchNothing ==> result == nil && fresh(its.datatypeDoc)
 //@   ensures[subscribes-when-matched]    old(optSubscribe(its)) && code == caseAllMatchedNotSubscribed ==> result == nil && its.datatypeDoc == old(its.datatypeDoc) && len(its.gotPushPullPack.Operations) == 0
 //@   ensures[accepted-is-ready]          result == nil ==> its.datatypeDoc != nil && mongodb.docWF(its.datatypeDoc) && its.currentCP != nil && its.initialCP != nil && its.currentCP != its.gotPushPullPack.CheckPoint
-//@   ensures[an-accepted-request-works-on-the-datatype-it-found] result == nil ==> its.DUID == its.datatypeDoc.DUID
+// (one clause per case: the solvers do not decide the disjunction over the six cases in one query)
+//@   ensures[an-accepted-request-works-on-the-datatype-it-found:caseMatchNothing] result == nil && code == caseMatchNothing ==> its.DUID == its.datatypeDoc.DUID
+//@   ensures[an-accepted-request-works-on-the-datatype-it-found:caseUsedDUID] result == nil && code == caseUsedDUID ==> its.DUID == its.datatypeDoc.DUID
+//@   ensures[an-accepted-request-works-on-the-datatype-it-found:caseMatchKeyNotType] result == nil && code == caseMatchKeyNotType ==> its.DUID == its.datatypeDoc.DUID
+//@   ensures[an-accepted-request-works-on-the-datatype-it-found:caseAllMatchedSubscribed] result == nil && code == caseAllMatchedSubscribed ==> its.DUID == its.datatypeDoc.DUID
+//@   ensures[an-accepted-request-works-on-the-datatype-it-found:caseAllMatchedNotSubscribed] result == nil && code == caseAllMatchedNotSubscribed ==> its.DUID == its.datatypeDoc.DUID
+//@   ensures[an-accepted-request-works-on-the-datatype-it-found:caseAllMatchedNotVisible] result == nil && code == caseAllMatchedNotVisible ==> its.DUID == its.datatypeDoc.DUID
 //@   ensures[refused-creates-nothing]    result != nil ==> its.datatypeDoc == old(its.datatypeDoc)
 //@   ensures[accepted-keeps-log-inv]     result == nil ==> logInv(its) && mongodb.cpOK(its.currentCP) && its.currentCP.Sseq <= its.datatypeDoc.Sseq.End && reqOpsWF(its.gotPushPullPack.Operations) && G.stored == old(G.stored)
 //@   ensures[request-checkpoint-untouched] its.gotPushPullPack.CheckPoint == old(its.gotPushPullPack.CheckPoint) && (its.gotPushPullPack.CheckPoint != nil ==> its.gotPushPullPack.CheckPoint.Sseq == old(its.gotPushPullPack.CheckPoint.Sseq))
